@@ -73,6 +73,29 @@ def check_C02(run):
                     TRUSTED + ["compress/flate, golang/snappy and hash/crc32 as the environment's decompression oracle"])
 
 
+def check_encoder(run, prop):
+    run.model("AvroSystem", "AvroSystem_thorough" if run.thorough() else "AvroSystem_quick")
+    out, meta = run.drive(prop)
+    total, rejected, states, _ = V.judge(run.scratch, "Trace_Encoder", out)
+    cov = std_cov(run, meta, total, states,
+                  "one trace per (codec, block size, history over {encode(payload length), flush}[, failing write index k, accepted-prefix class]); "
+                  "all histories up to exhaustive_histories_upto over three record sizes x block sizes {0,1,2,3,5} are enumerated, longer ones are seeded random; "
+                  "distinct_nontrivial counts distinct (codec, B, history, fault) keys",
+                  extra=dict(exhaustive_histories_upto=meta.get("exhaustive_histories_upto")))
+    return cov, rejected, out
+
+
+def check_C09(run):
+    cov, rejected, out = check_encoder(run, "C09")
+    return V.finish("C09", run.tier, run.seed, "model_checking", cov, rejected, out, run.t0, TRUSTED + ["flate/snappy/crc32 as decompression oracle"])
+
+
+def check_C16(run):
+    cov, rejected, out = check_encoder(run, "C16")
+    return V.finish("C16", run.tier, run.seed, "model_checking", cov, rejected, out, run.t0,
+                    TRUSTED + ["the fault-free reference output of the same history (itself judged as a C09 trace in the same run)"])
+
+
 CHECKS = {k[6:]: v for k, v in list(globals().items()) if k.startswith("check_C")}
 
 
